@@ -16,8 +16,8 @@ const taskVarPrefix = "TASK_"
 func GetEnviron() *ast.Vars {
 	m := ast.NewVars()
 	for _, e := range os.Environ() {
-		keyVal := strings.SplitN(e, "=", 2)
-		key, val := keyVal[0], keyVal[1]
+		// An entry of the process environment need not contain a '='
+		key, val, _ := strings.Cut(e, "=")
 		m.Set(key, ast.Var{Value: val})
 	}
 	return m
